@@ -710,6 +710,7 @@ where
                     Err(e) => Err(e),
                 };
                 let _ = std::fs::remove_file(&prog);
+                let _ = std::fs::remove_file(format!("{}.case", prog.display()));
                 let t = match (status, std::fs::read_to_string(&out)) {
                     (Ok(st), Ok(text)) if st.success() => match serde_json::from_str::<TallyWire>(&text) {
                         Ok(w) => Tally::from_wire(w),
